@@ -45,6 +45,22 @@ Theorem C03_path_parity_node :
 Proof. exact (GraphCount.node_update_preserves_inv bytes bytes_eqb bytes_eqb_eq edge e_id e_up e_down). Qed.
 Print Assumptions C03_path_parity_node.
 
+
+(* propagation clause (partial): the hash of an edge changes by exactly the XOR delta d of the node's
+   point checksums when it lies on an odd number of upward paths from the written node, hence on
+   every ancestor edge of a tree; missing relative to the statement: d <> 0 cannot be derived from
+   "a field changed" (CRC-32 is not injective), and below an even number of paths the XOR definition
+   itself cancels (the known finding xor-cancel-even-paths: the second branch of this theorem) *)
+Theorem C03_change_propagates_partial :
+  forall st id pts st', node_points st id pts = Ok st' ->
+    let d := N.lxor (xor_crcs (node_rows (s_nodes st) id)) (xor_crcs (node_rows (s_nodes st') id)) in
+    map e_hash (s_edges st') =
+    map (fun e => N.lxor (e_hash e)
+                    (if Nat.odd (cnt (e_id e) (visits (s_edges st) (fuel_of (s_edges st)) id)) then d else 0))
+        (s_edges st).
+Proof. exact node_write_hash_change. Qed.
+Print Assumptions C03_change_propagates_partial.
+
 (* non-vacuity: the example history reaches a state with a diamond, a deleted edge and points,
    and that state is well formed and satisfies the equation *)
 Example C03_example : wf ex_st /\ Inv ex_st.
